@@ -4,7 +4,7 @@ import json, subprocess
 ALL=[f"C{i:02d}" for i in range(1,20)]
 CLAIMED={
  "C17": dict(
-   text="The simple server against a 30-file x 4096-byte specification: every request sequence to the tier's depth over boundary-dense inode numbers, offsets, counts, data lengths and sizes (replies incl. eof flag and final contents); every crash image of every mutating history recovered with simple.Recover under two schedules (prefix containing every acknowledged request; keeps serving); all schedules within the deviation bound of 2-3 clients on one file with a brute-force linearizability check.",
+   text="The simple server against a 30-file x 4096-byte specification: every request sequence to the tier's depth over boundary-dense inode numbers, offsets, counts, data lengths and sizes (replies incl. eof flag and final contents); every crash image of every mutating history recovered with simple.Recover under two schedules (prefix containing every acknowledged request; keeps serving); all schedules within the deviation bound of 2-3 clients on one file with a brute-force linearizability check; and a crash in the middle of a concurrent execution: every crash image of every schedule's recorded trace against the requests acknowledged before the cut (reads included), any subset of the pending ones and the contents after recovery.",
    note="Trusted: the specification written from the property text; Disk contract; scheduler shim. Workers under ulimit -v. Bounds: depth 2/3, alphabet, three concurrent harnesses, deviation bound 2/3.",
    technique="explicit-state search over request sequences + crash-image enumeration + deviation-bounded schedule exploration of the implementation against a specification",
    ref="DESIGN.md 4 (C17)"),
@@ -14,27 +14,27 @@ CLAIMED={
    technique="bounded-exhaustive enumeration of values and byte strings with differential comparison against an independent codec",
    ref="DESIGN.md 4 (C16)"),
  "C11": dict(
-   text="Per procedure the full Cartesian product of boundary domains for every argument (16 handle shapes, 12 names, 11 offsets/sizes up to 2^64-1, counts with agreeing and disagreeing data lengths, cookies, limits, enum values incl. illegal ones; RENAME/LINK over all handle pairs) in four file-system states (populated with recycled inodes, tiny full disk, maximal sparse file, inode table exhausted but for two numbers), and every truncation / extension / 32-bit word substitution of the XDR argument bytes of one valid request per procedure (22 NFS + 6 MOUNT) fed through the registered rpcgen handlers; every request meets the named state on a fresh server instance (snapshot), cold and with warm caches, under the controlled scheduler: it must return (no panic, no deadlock, at most 400000 scheduling points) and a sanity script must succeed on the same instance afterwards.",
+   text="Per procedure the full Cartesian product of boundary domains for every argument (18 handle shapes, 13 names, 11 offsets/sizes up to 2^64-1, counts with agreeing and disagreeing data lengths, cookies, limits, enum values incl. illegal ones; RENAME/LINK over all handle pairs) in five file-system states (populated with recycled inodes, tiny full disk, maximal sparse file, inode table exhausted but for two numbers, a directory moved into another parent), and every truncation / extension / 32-bit word substitution of the XDR argument bytes of one valid request per procedure (22 NFS + 6 MOUNT) fed through the registered rpcgen handlers; every request meets the named state on a fresh server instance (snapshot), cold and with warm caches, under the controlled scheduler: it must return (no panic, no deadlock, at most 400000 scheduling points) and a sanity script must succeed on the same instance afterwards.",
    note="Replaces the property's coverage-guided fuzzing sub-clause (a sampling technique) by bounded-exhaustive mutation of the message bytes. Workers run under ulimit -v 16 GB; RPC header handling by go-rpcgen's rfc1057 server is outside go-nfsd and not exercised. Bounds: the boundary domains; one valid message per procedure.",
    technique="bounded-exhaustive input enumeration (argument products and byte-level mutants) on the implementation under a controlled scheduler",
    ref="DESIGN.md 4 (C11)"),
  "C19": dict(
    text="Limits are read from the server's FSINFO/PATHCONF replies; for every limit the requests at limit-1, limit, limit+1 and at the extremes (name lengths in four procedures, write counts at three offsets on two file shapes, file sizes/offsets up to 2^64-1, read sizes) are issued on a large disk: at or below the limit complete success (no short count) that reads back also after a restart; beyond it a clean error without effect or consumption; fsck; all space returns afterwards.",
-   note="Trusted: reference model with the announced limits plugged in. Bounds: the boundary value sets; one scenario per value (no sequences of limit requests).",
+   note="Trusted: reference model with the announced limits plugged in. Bounds: the boundary value sets; one scenario per value, plus forty names at the limit in one directory (looked up and re-created after a restart).",
    technique="bounded-exhaustive enumeration of boundary inputs on the implementation against the reference model parameterised by the announced limits",
    ref="DESIGN.md 4 (C19)"),
  "C15": dict(
    text="Every disk size in dense ranges around the smallest accepted size and around three bitmap-block boundaries (plus the sizes the tests and CLI use): layout regions adjacent/inside/equal to an independent computation; fresh image bitmaps exact; fsck; the disk is filled completely through WRITEs, every data block must be owned and none outside, then everything is deleted and the free counts must return.",
-   note="Trusted: fsck and the independent layout arithmetic. Bounds: the size ranges; quick fills only sizes < 1700, +-2 around each boundary and the two large sizes (thorough fills all).",
+   note="Trusted: fsck and the independent layout arithmetic. The allocator/bitmap audit also runs after every short write of the fill. Bounds: the size ranges; quick fills only sizes < 1700, +-2 around each boundary and the two large sizes (thorough fills all).",
    technique="bounded-exhaustive enumeration of configurations (disk sizes) on the implementation with structural oracles",
    ref="DESIGN.md 4 (C15)"),
  "C13": dict(
    text="For every directory shape of a list (empty, freed slots, block boundaries, long names; 300 and - thorough - 17000 entries with a short list of limits) every READDIR count in a dense range and a READDIRPLUS dircount x maxcount grid are enumerated with the client loop; completeness, no duplicates, no phantoms, progress, termination, and agreement of ids/handles/attributes with LOOKUP+GETATTR; every returned cookie re-used; a mutation (add / remove listed / remove unlisted) at every page boundary of the multi-page limits.",
-   note="Trusted: reference model for ids/handles/attributes. Bounds: dense grids for shapes up to 70 entries (step 8 away from thresholds; 80-call cap), a short list of limits for the big shapes (call cap = number of entries), mutation only between calls (during a call: C03 harness readdirplus-create-remove).",
+   note="Trusted: reference model for ids/handles/attributes. Names of 4, 111 and 112 (= name_max) bytes. Bounds: dense grids for shapes up to 70 entries (step 8 away from thresholds; 80-call cap), a short list of limits for the big shapes (call cap = number of entries), mutation only between calls (during a call: C03 harness readdirplus-create-remove).",
    technique="bounded-exhaustive enumeration of inputs (limits, cookies, mutation points) against the implementation with a set-based oracle",
    ref="DESIGN.md 4 (C13)"),
  "C12": dict(
-   text="Block-recycling search on disks with 12 and 40 data blocks (every freed block is reused at once): breadth-first over fills with recognisable patterns, truncations to aligned/unaligned sizes, growth, partial writes, writes past the end, removal, re-creation, restart; every file read in full after every transition and compared byte for byte with the reference; plus every crash image of the recycling histories (files, symbolic links, directories), recovered and compared byte-exactly with the prefix states; plus crash images of truncations of a 530-block file freed by several background transactions, after which every surviving file is written across / far beyond its end, grown and read.",
+   text="Block-recycling search on disks with 12 and 40 data blocks (every freed block is reused at once): breadth-first over fills with recognisable patterns, truncations to aligned/unaligned sizes, growth, partial writes, writes past the end, removal, re-creation, restart; every file read in full after every transition and compared byte for byte with the reference; plus every crash image of the recycling histories (files, symbolic links, directories), recovered and compared byte-exactly with the prefix states; a search from a file of 506 blocks of data (the in-transaction free may stop a few blocks early); plus crash images of truncations of a 530-block file freed by several background transactions, after which every surviving file is written across / far beyond its end, grown and read.",
    note="Trusted: reference model bytes. On a full disk a READ of a hole may return short (materialising the hole needs a block) and a WRITE may be short; both are tolerated as implementation-only failures as long as the bytes returned are right. The zero-scan of free blocks is not a verdict (mechanism, not property). Bounds: depth, two files, pattern alphabet.",
    technique="explicit-state search + crash-image enumeration of the implementation with a byte-exact reference oracle",
    ref="DESIGN.md 4 (C12)"),
@@ -59,7 +59,7 @@ CLAIMED={
    technique="explicit-state search + crash-image enumeration + schedule exploration of the implementation with a reachability/bitmap audit as invariant",
    ref="DESIGN.md 4 (C05)"),
  "C04": dict(
-   text="An independent fsck (own decoders, log-aware) is the only oracle of three exhaustive explorations: every state of a breadth-first search over a namespace/data alphabet extended with directory renames, REMOVE/SETATTR on directories and background frees; the final state of every schedule of the C03 harnesses within the bound; the logical disk of every crash image of the C01 crash histories and of the multi-transaction free of a 530-block file; a second search over writes/truncations at every indirection boundary; multi-block directories reduced to one survivor.",
+   text="An independent fsck (own decoders, log-aware) is the only oracle of three exhaustive explorations: every state of a breadth-first search over a namespace/data alphabet extended with directory renames, REMOVE/SETATTR on directories and background frees; the final state of every schedule of the C03 harnesses within the bound; the logical disk of every crash image of the C01 crash histories and of the multi-transaction free of a 530-block file; a second search over writes/truncations at every indirection boundary; multi-block directories reduced to one survivor; searches from a directory of 40 maximal-length names and from nested directories (stored link counts show when the parent is removed after a restart).",
    note="Trusted: fsck's own reading of the on-disk format (little-endian inode/dirent layout, circular log header). Bounds: as C02/C03/C01 at the tier's depths; capped loss enumeration reported as exhaustive:false.",
    technique="explicit-state search + schedule exploration + crash-image enumeration of the implementation with a structural invariant (fsck) evaluated in every state/image",
    ref="DESIGN.md 4 (C04)"),
@@ -74,7 +74,7 @@ CLAIMED={
    technique="stateless deviation-bounded schedule exploration of the implementation (controlled scheduler) with happens-before state caching and a linearizability oracle",
    ref="DESIGN.md 4 (C03)"),
  "C06": dict(
-   text="(a) explicit-state search over requests whose inodes coincide or are ordered arbitrarily: a single client never waits on itself or exceeds the horizon; (b) lock-acquisition traces of every probe operation in states with inverted inode numbers and cold caches, every opposite-order pair run concurrently under all schedules within the bound - only a real deadlock schedule counts; (c) deadlock and horizon (livelock) verdicts of all schedules within one deviation of the C03 harnesses with renames, inverted inode numbers or background frees. Deadlocks are identified by the call sites on the wait-for cycle.",
+   text="(a) explicit-state search over requests whose inodes coincide or are ordered arbitrarily: a single client never waits on itself or exceeds the horizon; (b) lock-acquisition traces of every probe operation in states with inverted inode numbers and cold caches, every opposite-order pair run concurrently under all schedules within the bound - only a real deadlock schedule counts; a search over repeated truncation and re-growth (shrinker threads accumulate; the state key counts live shrinker threads); (c) deadlock and horizon (livelock) verdicts of all schedules within one deviation of the C03 harnesses with renames, inverted inode numbers or background frees. Deadlocks are identified by the call sites on the wait-for cycle.",
    note="Trusted: scheduler shim; lock events woven into the go-journal copy's lockmap. Bounds: depth, probe alphabet, four named states plus all states of a shape search of depth 2/3 (warm and cold caches), deviation bound 2/3, horizon 400000 scheduling points.",
    technique="explicit-state search + predictive lock-order analysis confirmed by deviation-bounded schedule exploration of the implementation",
    ref="DESIGN.md 4 (C06)"),
@@ -90,11 +90,11 @@ CLAIMED={
    ref="DESIGN.md 4 (C07)"),
  "C02": dict(
    text="Explicit-state breadth-first search over operation sequences on the real server against a reference file system: namespace/data alphabet (about 40 symbols; with and without the unstable option; once more through the XDR/dispatch path), name lengths 0..256, and offsets/sizes at every block and indirection boundary up to the announced maximum; after every transition the reply, an observation sweep with every read-only procedure, and a full-tree dump incl. handles are compared.",
-   note="Trusted: the reference model (reffs) and its stated tolerance points (DESIGN.md Appendix A); state key = model + installed disk + allocator cursors + inode cache (log position is abstracted away). Bounds: depth, alphabets, two directories and a handful of names. The transport path is covered by a third namespace search in which every request is XDR-encoded, dispatched by procedure number through the server's registration table and the XDR reply decoded (fsx.XDRProxy); go-rpcgen's RPC header/record marking in front of it is not exercised.",
+   note="Trusted: the reference model (reffs) and its stated tolerance points (DESIGN.md Appendix A); state key = model + installed disk + allocator cursors + inode cache (log position is abstracted away). A RESTART is a clean shutdown without flush or idle time (after a COMMIT if unstable writes are outstanding). Further searches from a directory of 40 maximal-length names and from a two-block directory reduced to one survivor. Bounds: depth, alphabets, two directories and a handful of names. The transport path is covered by a third namespace search in which every request is XDR-encoded, dispatched by procedure number through the server's registration table and the XDR reply decoded (fsx.XDRProxy); go-rpcgen's RPC header/record marking in front of it is not exercised.",
    technique="explicit-state search over operation sequences of the implementation with a reference-model oracle",
    ref="DESIGN.md 4 (C02)"),
  "C18": dict(
-   text="Bounded-exhaustive model checking of the real kvs package: every operation sequence to the tier's depth against a map, every crash image (all cuts x all losses of un-barriered writes, nested crash in recovery) of every put history recovered by the real MkKVS, and every schedule within the deviation bound of 3-client harnesses checked for linearizability.",
+   text="Bounded-exhaustive model checking of the real kvs package: every operation sequence to the tier's depth against a map, every crash image (all cuts x all losses of un-barriered writes, nested crash in recovery) of every put history recovered by the real MkKVS, every schedule within the deviation bound of 3-client harnesses checked for linearizability, and a crash in the middle of a concurrent execution (every crash image of every schedule's trace against the acknowledged and pending puts and the recovered store).",
    note="Trusted: the cooperative scheduler shim (vsync) models sync.Mutex/Cond faithfully; Disk contract (atomic block writes, Barrier persists everything); lockmap.NSHARD scaled to 13. Bounds: depth, alphabet, deviation bound, capped loss enumeration for epochs with hundreds of pending blocks (reported exhaustive:false).",
    technique="explicit-state search over operation sequences + crash-image enumeration + deviation-bounded schedule exploration of the implementation",
    ref="DESIGN.md 4 (C18)"),
